@@ -45,6 +45,8 @@ def load_known(pid):
 
 
 def symptom_match(pat, s):
+    if "|" in pat:
+        return any(symptom_match(a, s) for a in pat.split("|"))
     if pat.endswith("*"):
         return s.startswith(pat[:-1])
     return pat == s
@@ -131,7 +133,7 @@ def run_check(pid, spec, tier, seed, scratch, args, t0):
         if res is None:
             raise Infra("replay of %s produced no verdict" % rep)
         if res["result"] == "fail":
-            if k["status"] == "open" and symptom_match(k.get("symptom", ""), res["symptom"]):
+            if k["status"] == "open" and symptom_match(k.get("replay_symptom", k.get("symptom", "")), res["symptom"]):
                 known_lines.append("KNOWN-FINDING: property=%s %s [%s]" % (pid, k["text"], k["id"]))
             else:
                 dst = os.path.join(replay_dir, os.path.basename(rp))
@@ -248,6 +250,9 @@ def run_check(pid, spec, tier, seed, scratch, args, t0):
             f.write("exit status %s\n" % rc)
             if os.path.exists(cur):
                 f.write("== case being executed ==\n" + open(cur).read() + "\n")
+            m = re.search(r"^(fatal error: .*|panic: .*)$", out, re.M)
+            if m:
+                f.write("== crash head ==\n" + out[m.start():m.start() + 6000] + "\n")
             f.write("== output tail ==\n" + out[-20000:])
         if crash is None:
             log(out[-4000:])
